@@ -15,7 +15,7 @@
     attrs_has_iff_get attrs_slice_spec attrs_sub_nodup attrs_or_sub_nodup attrs_totuple_append
     qname_pickle_roundtrip qname_parse ns_getitem_in
     stripentities_keepxml_escape striptags_no_tag attrs_get_or escape2_append unescape_no_entity
-    mod2_percent_s
+    mod2_percent_s striptags_keeps_plain_text striptags_removes_simple_tag
 -/
 import Genshi.Lemmas.Escape
 import Genshi.Lemmas.MarkupOps
@@ -628,6 +628,18 @@ theorem mod2_percent_s (i : Impl) (lits : List (List Char)) (os : List Arg)
     have := fmtPos_piecesOf lits [] [once2 true a] (by simpa using hlen)
     simp only [List.nil_append] at this
     simp [this, bind, Except.bind, pure, Except.pure]
+
+/-- `striptags` keeps the text before the first `<` as it is (hence text without `<` entirely) -/
+theorem striptags_keeps_plain_text (a b : List Char) (h : '<' ∉ a) :
+    striptags (a ++ b) = a ++ striptags b ∧ striptags a = a := by
+  refine ⟨striptags_plain_prefix a b h, ?_⟩
+  have := striptags_plain_prefix a [] h
+  simpa [striptags, stripTagsGo] using this
+
+/-- `striptags` removes a tag `<t>` whose inside holds no `>` and does not begin with `!` -/
+theorem striptags_removes_simple_tag (t rest : List Char) (h1 : '>' ∉ t) (h2 : t.head? ≠ some '!') :
+    striptags ('<' :: t ++ '>' :: rest) = striptags rest :=
+  striptags_simple_tag t rest h1 h2
 
 end Wave4
 
